@@ -1,4 +1,4 @@
 SPECIFICATION BSpec
-CONSTANTS MaxChrom = 2  MaxUnits = 1  Kinds = {"edge", "snp", "ins", "multi", "inv", "nested"}  EndKinds = {"tip", "endsnp"}  Defects = {}  MaxDefects = 0  MinUnits = 0  Pattern <- NoPattern
+CONSTANTS MaxChrom = 2  MaxUnits = 1  Kinds = {"edge", "snp", "ins", "multi", "inv", "nested"}  EndKinds = {"tip", "endsnp"}  Defects = {}  MaxDefects = 0  MinUnits = 0  Pattern <- NoPattern  Wholes = {}
 INVARIANT LexSanity
 CHECK_DEADLOCK FALSE
